@@ -83,7 +83,11 @@ impl MetadataClient for LocalMetadataClient {
             let mut bucket = start_bucket;
             while bucket <= end_bucket {
                 time_index.entry(bucket).or_default().push(path.to_string());
-                bucket += Self::NANOS_PER_HOUR;
+                // the last bucket of the i64 range has no successor
+                bucket = match bucket.checked_add(Self::NANOS_PER_HOUR) {
+                    Some(next) => next,
+                    None => break,
+                };
             }
         }
 
@@ -151,7 +155,11 @@ impl MetadataClient for LocalMetadataClient {
                     if let Some(paths) = time_index.get_mut(&bucket) {
                         paths.retain(|p| p != path);
                     }
-                    bucket += Self::NANOS_PER_HOUR;
+                    // the last bucket of the i64 range has no successor
+                    bucket = match bucket.checked_add(Self::NANOS_PER_HOUR) {
+                        Some(next) => next,
+                        None => break,
+                    };
                 }
             }
         }
